@@ -1580,12 +1580,15 @@ impl Vm {
     fn reset_stack(&mut self) {
         if let Some(fiber) = self.fiber.as_ref() {
             // Closures that outlive the failed run keep the variables they captured, in the
-            // failing fiber and in every fiber waiting for it.
-            let mut caller = fiber.borrow().caller;
+            // failing fiber and in every fiber waiting for it; the waiting fibers end with the
+            // run as well.
+            let mut caller = fiber.borrow_mut().caller.take();
             while let Some(waiting) = caller {
                 let mut borrowed_waiting = waiting.borrow_mut();
                 borrowed_waiting.close_upvalues(0);
-                caller = borrowed_waiting.caller;
+                borrowed_waiting.stack.clear();
+                borrowed_waiting.frames.clear();
+                caller = borrowed_waiting.caller.take();
             }
             let mut borrowed_fiber = fiber.borrow_mut();
             borrowed_fiber.close_upvalues(0);
